@@ -185,7 +185,8 @@ class UnusedTranslator:
             def replace(var: AST) -> AST:
                 if var in map_:
                     return map_[var]
-                return var
+                # a variable of the body only: it must not meet a variable of the rule that uses the head
+                return Variable(LOC, "_")
 
             self.arguments = [transform_ast(arg, "Variable", replace) for arg in arguments]
             # self.arguments = deepcopy(arguments)
@@ -266,6 +267,13 @@ class UnusedTranslator:
                 continue
             if not self._uses_respect_repeated_arguments(prg, rules[0], head, hlit.atom.symbol.arguments):
                 continue
+            body_only = [
+                var
+                for var in collect_ast(blit, "Variable")
+                if var not in hlit.atom.symbol.arguments and var.name != "_"
+            ]
+            if len(body_only) != len(set(body_only)):
+                continue  # b(X,Y,Y): the equality of the two positions can not be kept with anonymous variables
             if not len(hlit.atom.symbol.arguments) == len(blit.atom.symbol.arguments):
                 continue
             if head == Predicate(blit.atom.symbol.name, len(blit.atom.symbol.arguments)):
